@@ -115,6 +115,39 @@ def decode (fmt : Format) (crc : Bytes → Nat) (bs : Bytes) : Option (Entry × 
       let d := (bs.drop overhead).take len
       if crc (covered fmt len ts d) = ck then some (⟨d, ts, ck⟩, overhead + len) else none
 
+/-! ### the size arithmetic of `decode` (and of every `offset + len` bound test)
+
+  `decode` above compares lengths in unbounded `Nat`.  The Rust code computes
+  `total_size = WAL_ENTRY_OVERHEAD.checked_add(data_len)?` in `usize` for a `u32` length; the
+  definitions below model exactly that arithmetic (and the variants that would be wrong), so
+  that "the model's test is the code's test" is a theorem (`C10.decode_total_no_wrap`) and a
+  width change of the addition is visible (`C10.size_wrap_counterexample`). -/
+
+/-- in which integer type `base + len` is computed -/
+inductive SizeArith where
+  | usizeChecked    -- `base.checked_add(len)?` in 64-bit `usize` (WalEntry::decode, current code)
+  | usizeWrapping   -- plain `base + len` in 64-bit `usize`, release profile (DeltaIterator, CheckpointReader)
+  | u32Wrapping     -- `(base as u32 + len) as usize`: the sum wraps at 2^32
+  deriving DecidableEq, Repr
+
+def totalSize (a : SizeArith) (base len : Nat) : Option Nat :=
+  match a with
+  | .usizeChecked => if base + len < 2 ^ 64 then some (base + len) else none
+  | .usizeWrapping => some ((base + len) % 2 ^ 64)
+  | .u32Wrapping => some ((base + len) % 2 ^ 32)
+
+/-- what the bound test + the slice `data[base..total]` do -/
+inductive SizeRes where
+  | reject                 -- `None` / `Err`: not enough bytes
+  | slice (total : Nat)    -- accepted, payload = `data[base..total]`
+  | crash                  -- accepted, then `data[base..total]` with `total < base` panics
+  deriving DecidableEq, Repr
+
+def sizeTest (a : SizeArith) (base remaining len : Nat) : SizeRes :=
+  match totalSize a base len with
+  | none => .reject
+  | some t => if remaining < t then .reject else if t < base then .crash else .slice t
+
 /-- `WalReader::entries` from an offset: decode entries until the first failure.
     `fuel` bounds the loop (every iteration consumes ≥ 16 bytes, so `bs.length` suffices). -/
 def entriesAux (fmt : Format) (crc : Bytes → Nat) : Nat → Bytes → List Entry
@@ -236,6 +269,7 @@ inductive Call where
   | create (seq : Nat) (ok : Bool)
   | append (seq : Nat) (len : Nat) (o : Outcome)
   | sync (seq : Nat) (ok : Bool)
+  | delete (seq : Nat) (ok : Bool)
   deriving DecidableEq, Repr, Inhabited
 
 /-- everything below the rotator: the store, the number of I/O calls issued, and the
@@ -284,6 +318,15 @@ def ioSync (φ : Nat → Outcome) (w : World) (seq : Nat) : World × Bool :=
   match φ w.io with
   | .ok => (w.push (syncFile w.store seq) (.sync seq true), true)
   | _ => (w.push w.store (.sync seq false), false)
+
+/-- the store without file `seq` -/
+def deleteFile (st : Store) (seq : Nat) : Store := st.filter (fun p => p.1 != seq)
+
+/-- `WalStore::delete` -/
+def ioDelete (φ : Nat → Outcome) (w : World) (seq : Nat) : World × Bool :=
+  match φ w.io with
+  | .ok => (w.push (deleteFile w.store seq) (.delete seq true), true)
+  | _ => (w.push w.store (.delete seq false), false)
 
 /-- what a crash leaves: every file cut to its synced length -/
 def crashImage (st : Store) : Image := st.map (fun p => (p.1, p.2.data.take p.2.synced))
@@ -363,6 +406,25 @@ def Rot.append (fix : Bool) (fmt : Format) (φ : Nat → Outcome) (r : Rot) (e :
     | (r1, some x) => (r1, some x)       -- `self.rotate()?`
     | (r1, none) => Rot.appendTo φ r1 e
   else Rot.appendTo φ r e
+
+/-- the deletions of `truncate_before`, in listing order; the first failing `delete` aborts
+    (`self.store.delete(name)?`) -/
+def truncLoop (φ : Nat → Outcome) : List Nat → World → World
+  | [], w => w
+  | k :: rest, w =>
+    match ioDelete φ w k with
+    | (w', true) => truncLoop φ rest w'
+    | (w', false) => w'
+
+/-- `WalRotator::truncate_before` on the live store: every file other than the current writer's
+    that is readable and holds no entry stamped later than `T` (judged on its FULL contents,
+    synced or not) is deleted -/
+def Rot.truncate (fmt : Format) (crc : Bytes → Nat) (φ : Nat → Outcome) (T : Nat) (r : Rot) : Rot :=
+  let victims := (r.w.store.map (·.1)).filter (fun k => r.cur != some k &&
+    match NMap.get r.w.store k with     -- `open_read(name)`
+    | some f => deletable fmt crc T f.data
+    | none => false)
+  { r with w := truncLoop φ victims r.w }
 
 /-- `WalRotator::sync` -/
 def Rot.sync (fix : Bool) (φ : Nat → Outcome) (r : Rot) : Rot × Bool :=
